@@ -63,6 +63,20 @@ Definition chk_eval (e : expr) (o : aobs) : bool := ares_eqb (eval e) o.
 (** against the pre-repair transcription (to confirm finding C12-F3 on old trees) *)
 Definition chk_arith_pre (m : mode) (op a b : Z) (o : aobs) : bool := ares_eqb (arith_pre m (op_of op) a b) o.
 
+(** SUM over Int64 values in arrival order: the implementation returns the total, or panics *)
+Definition chk_sum (m : mode) (vs : list Z) (o : aobs) : bool :=
+  match sum_int m 0 vs, o with
+  | Ok t, ObsVal (Some w) => t =? w
+  | Panic, ObsPanic => true
+  | _, _ => false
+  end.
+(** finding class C12-K8: some partial sum, in arrival order, does not fit in an i64 *)
+Definition k_sum_overflow (vs : list Z) : bool :=
+  match sum_int Checked 0 vs with Panic => true | Ok _ => false end.
+(** ... and for failures of the search, where the summed values are not known: the text contains
+    the word [sum] (1) — coarse *)
+Definition k_sum_query (ks : list Z) : bool := existsb (Z.eqb 1) ks.
+
 Definition iobs_eqb (r : res (option Z)) (o : option (option Z)) : bool :=
   match r, o with
   | Ok v, Some w => option_eqb Z.eqb v w
